@@ -492,8 +492,13 @@ FunctorOps == {"functor.identity", "functor.laws", "functor.map_arrow", "functor
 OpticOps == {"laxf.optic_map_adapted", "laxf.optic_map_arrow", "optic.eval_adapted", "optic.laws", "optic.map_adapted", "optic.map_arrow"}
 VarOps == {"var.script_eval", "var.forget", "var.forget_eval", "var.forget_monogamous", "var.script"}
 LaxOps == {"lax.reset", "lax.set_interfaces", "lax.add_edge_source", "lax.add_edge_target", "lax.append", "lax.compose", "lax.compose_shr", "lax.dagger", "lax.delete_edges", "lax.delete_nodes", "lax.empty", "lax.unit", "lax.from_strict", "lax.h.coequalizer", "lax.h.coproduct_assign", "lax.h.delete_edge", "lax.h.delete_nodes", "lax.h.delete_nodes_witness", "lax.h.quotient", "lax.h.to_hypergraph", "lax.half_spider", "lax.identity", "lax.is_strict", "lax.lax_compose", "lax.map_edges", "lax.map_nodes", "lax.new_edge", "lax.new_node", "lax.new_operation", "lax.quotient", "lax.quotient_witness", "lax.roundtrip_lax", "lax.roundtrip_strict", "lax.serde_roundtrip", "lax.singleton", "lax.source", "lax.spider", "lax.target", "lax.tensor", "lax.tensor3", "lax.tensor_assign", "lax.tensor_bitor", "lax.to_open_hypergraph", "lax.to_strict", "lax.twist", "lax.unify", "lax.with_edges", "lax.with_nodes"}
+\* an operation reached through a categorical trait is judged as the operation itself
+BaseOp(op) == CASE op = "strict.source_trait" -> "strict.source" [] op = "strict.target_trait" -> "strict.target"
+                [] op = "strict.identity_trait" -> "strict.identity" [] op = "strict.spider_trait" -> "strict.spider"
+                [] op = "lax.identity_trait" -> "lax.identity" [] op = "lax.spider_trait" -> "lax.spider"
+                [] op = "lax.tensor_trait" -> "lax.tensor" [] OTHER -> op
 ConfEvent(st, ev) ==
-  LET op == ev.op  a == ev.args  o == ev.obs IN
+  LET op == BaseOp(ev.op)  a == ev.args  o == ev.obs IN
   CASE op \in ArrOps -> ConfArr(op, a, o)
     [] op \in FFOps -> ConfFF(op, a, o)
     [] op \in ICOps -> ConfIC(op, a, o)
